@@ -71,6 +71,14 @@ async def process_resource_event(
     body = live_fresh_body if live_fresh_body is not None else bodies.Body(raw_body)
     patch = patches.Patch(memory.remaining_patch, body=body)
 
+    # The transformations carried over from a conflicting (HTTP 422) cycle that change nothing in
+    # the object as it is now are fulfilled already (e.g. by the change they conflicted with).
+    # Forget them: a carried patch prevents the handlers in this cycle for the sake of an instant
+    # re-patching, but these would send no request and bring no event: the change would be lost.
+    if memory.remaining_patch is not None and not patch.as_json_patch(body):
+        memory.remaining_patch = None
+        patch = patches.Patch(body=body)
+
     # Different loggers for different cases with different verbosity and exposure.
     local_logger = loggers.LocalObjectLogger(body=body, settings=settings)
     terse_logger = loggers.TerseObjectLogger(body=body, settings=settings)
